@@ -300,6 +300,15 @@ Theorem C19_unpack_merged_ring : forall c r n m e,
 Proof. exact unpack_merged_ring. Qed.
 Print Assumptions C19_unpack_merged_ring.
 
+(* without the guard the expression is NOT order free: the `n, m = common` of _is_condensed_ring (two common atoms that need
+   not be neighbours) stays a differential-only site; replayed on the real _canonic_ring / _ring_scissors by the check *)
+Theorem C19_merged_ring_unguarded_refuted :
+  let c := [1; 2; 3; 4] in let r := [1; 5; 3; 6] in
+  NoDup c /\ NoDup r /\ (forall x, In x c -> In x r -> x = 1 \/ x = 3) /\
+  merged_ring c r 1 3 = Ok [1; 1; 6; 4; 3; 2] /\ merged_ring c r 3 1 = Ok [1; 2; 5; 3; 3; 4].
+Proof. exact merged_ring_unguarded_order_dependent. Qed.
+Print Assumptions C19_merged_ring_unguarded_refuted.
+
 Theorem C19_merged_ring_example :
   merged_ring [1; 2; 3; 4] [3; 4; 5; 6; 7] 3 4 = Ok [1; 2; 3; 7; 6; 5; 4] /\
   merged_ring [1; 2; 3; 4] [3; 4; 5; 6; 7] 4 3 = Ok [1; 2; 3; 7; 6; 5; 4] /\
